@@ -605,7 +605,11 @@ def param_types(chk, ps, quick):
                                      % (fname, tname, what, ex, {k: float(v) for k, v in a.items()}, N), rep)
                             continue
                         err = float(numpy.abs(s - ref).max()) if s.shape == ref.shape else float("inf")
-                        if not err <= tol * numpy.abs(ref).max():
+                        # ft_phase_screen converts its parameters to Python floats first: a float32 scalar gives the double-precision
+                        # screen of the value it holds (observed: bit-identical); only the sub-harmonic code computes with the scalars
+                        # as given.  (A float32 parameter processed in single precision makes the covariance wrong by 1e-7.)
+                        tol_ = TOL if (tname == "numpy.float32" and fname == "ft_phase_screen") else tol
+                        if not err <= tol_ * numpy.abs(ref).max():
                             chk.fail("param-type:%s:%s" % (fname, tname), "%s with r0, delta, L0, l0 of type %s%s differs from the call with the "
                                      "same values as Python floats by %.3g (screen max %.3g; values %s, N=%d)"
                                      % (fname, tname, what, err, numpy.abs(ref).max(), {k: float(v) for k, v in a.items()}, N), rep)
